@@ -516,6 +516,55 @@ theorem fresh_when_all_sources_missing (conv : Conv C) (m1 m2 : WMode) (lo po : 
   · exact ⟨_, by rw [put_fs_ne _ _ _ hpg, put_fs_eq], rfl⟩
   · exact ⟨_, put_fs_eq _ _ _ _, rfl⟩
 
+/-- **`LaTeXToPDF(overwrite=True)` cures the finding**: with that option the pdf (and therefore the image) is
+regenerated in every run, so all files are fresh whatever was missing at the start — no `SourceClosed`.
+(`Write(overwrite=True)` does *not*: `stale_when_csv_missing` holds for every mode of the first `Write`,
+because a file that does not exist is created through the same branch.) -/
+theorem fresh_when_latex_overwrites (conv : Conv C) (m1 m2 : WMode) (po : Bool) (u : FUnit) (pc : String) (ncsv ntex : C)
+    (w : World C) (hu : u.csvs = [pc]) (hd : u.Distinct) (hclk : ClockInv w)
+    (htd : ∀ tf, w.fs u.tex = some tf → conv.depsOf tf.content = u.csvs) (hdeps : conv.depsOf ntex = u.csvs) :
+    ∃ w' c, sepCore conv m1 m2 true po u pc ncsv ntex w = .ok (w', some c) ∧
+      UnitFresh conv u w'.fs [effective m1 (w.fs pc) ncsv] (effective m2 (w.fs u.tex) ntex) := by
+  have hd' := hd
+  obtain ⟨htc, hpc', hgc, htp, htg, hpg⟩ := hd'
+  have hpct : pc ≠ u.tex := fun h => htc (by rw [hu, ← h]; simp)
+  have hpcp : pc ≠ u.pdf := fun h => hpc' (by rw [hu, ← h]; simp)
+  have hpcg : pc ≠ u.png := fun h => hgc (by rw [hu, ← h]; simp)
+  -- after the two Writes
+  obtain ⟨cf, hcf, hcc⟩ := writeCore_content m1 pc ncsv w none
+  have ht1 : (writeCore m1 pc ncsv w none).1.fs u.tex = w.fs u.tex := writeCore_frame m1 pc ncsv w none (Ne.symm hpct)
+  obtain ⟨tf, htf, htfc⟩ := writeCore_content m2 u.tex ntex (writeCore m1 pc ncsv w none).1 (writeCore m1 pc ncsv w none).2
+  rw [ht1] at htfc
+  have hc2 : (writeCore m2 u.tex ntex (writeCore m1 pc ncsv w none).1 (writeCore m1 pc ncsv w none).2).1.fs pc = some cf := by
+    rw [writeCore_frame m2 u.tex ntex _ _ hpct]; exact hcf
+  have hdeps2 : conv.depsOf tf.content = u.csvs := by
+    rw [htfc]
+    rcases effective_cases m2 (w.fs u.tex) ntex with h | ⟨f, hf, h⟩
+    · rw [h]; exact hdeps
+    · rw [h]; exact htd f hf
+  obtain ⟨w', he, hpdf, hpng, hframe, _, _⟩ := convCore_launch conv true po u _ _ tf hd
+    (writeCore_clockInv m2 u.tex ntex _ _ (writeCore_clockInv m1 pc ncsv w none hclk)) htf (.inr (.inl rfl))
+  have hdc : depContents (writeCore m2 u.tex ntex (writeCore m1 pc ncsv w none).1 (writeCore m1 pc ncsv w none).2).1.fs
+      (conv.depsOf tf.content) = [some (effective m1 (w.fs pc) ncsv)] := by
+    rw [hdeps2, hu]; simp [depContents, hc2, hcc]
+  rw [hdc, htfc] at hpdf hpng
+  refine ⟨w', true, he, ?_, ⟨tf, ?_, htfc⟩, hpdf, hpng⟩
+  · rw [hu]; simp [depContents, hframe pc hpcp hpcg, hc2, hcc]
+  · rw [hframe u.tex htp htg]; exact htf
+
+/-- plots must have files of their own (`UnitsOK`): two plots with one file name in one run — the second
+overwrites the files of the first, and the value yielded for the first names files that hold the data of the
+second -/
+example :
+    ((exec stubConv World.init [.run ⟨Witness.cfg, .separate, 1, [⟨some "p0", 1⟩, ⟨some "p0", 2⟩]⟩]).fs
+      "out/p0.csv").map (·.content) = some (.csv 2) := by
+  decide +kernel
+
+/-- `MapGroup` accepts a group iff its data list and `context.group` have the same length -/
+theorem mapGroupGuard_ok (a b : Nat) : mapGroupGuard a b = .ok () ↔ a = b := by
+  unfold mapGroupGuard
+  by_cases h : a = b <;> simp [h]
+
 /-! ## `output.changed` is true whenever a file's content changed and stays true downstream -/
 
 /-- `Write` never turns `True` into anything else (all modes, all states of the file) -/
@@ -1191,6 +1240,65 @@ theorem object_history_eq_fresh (conv : Conv C) :
 /-- what the hypothesis excludes: if the template file is replaced *without* a change of its modification time,
 `RenderLaTeX` keeps rendering the cached template (jinja2 compares modification times only) -/
 example : (getTemplate { cache := some (1, 5) } ⟨2, 5⟩).1 = 1 := by decide
+
+/-! ## the executable specification side (`Model/C19Spec.lean`) -/
+
+/-- the Boolean `SourceClosed` that the driver evaluates on every run is the hypothesis of the theorems -/
+theorem sourceClosedB_iff (u : FUnit) (fs : FS C) : sourceClosedB u fs = true ↔ SourceClosed u fs := by
+  unfold sourceClosedB SourceClosed
+  cases hp : (fs u.pdf).isSome <;> simp [List.all_eq_true]
+
+theorem hasContentB_iff (fs : FS C) (p : String) (c : C) : hasContentB fs p c = true ↔ HasContent fs p c := by
+  unfold hasContentB HasContent
+  cases h : fs p with
+  | none => simp
+  | some f => simp
+
+/-- the Boolean `UnitFresh` that the driver evaluates after every run is the conclusion of the theorems -/
+theorem unitFreshB_iff (conv : Conv C) (u : FUnit) (fs : FS C) (ecsvs : List C) (etex : C) :
+    unitFreshB conv u fs ecsvs etex = true ↔ UnitFresh conv u fs ecsvs etex := by
+  unfold unitFreshB UnitFresh
+  simp only [Bool.and_eq_true, decide_eq_true_eq, hasContentB_iff, and_assoc]
+
+/-- **the specification side refines to the pipeline** (separate layout, any number of plots): whenever the names
+resolve and the bookkeeping `specSeparate` ends in world `w'`, the element-by-element pipeline ends in the same
+world -/
+theorem specSeparate_refines (conv : Conv C) (cfg : Cfg) (ms : List (MFKey × Tpl)) (tpl : Nat) :
+    ∀ (pls : List Plot) (w w' : World C), specSeparate conv cfg ms tpl w pls = .ok w' →
+      ∃ vs, runPlots conv cfg ms tpl w pls = .ok (w', vs) := by
+  intro pls
+  induction pls with
+  | nil => intro w w' h; simp only [specSeparate, Except.ok.injEq] at h; subst h; exact ⟨[], rfl⟩
+  | cons pl rest ih =>
+    intro w w' h
+    unfold specSeparate at h
+    cases hu : plotUnit cfg ms pl with
+    | error e => simp [hu] at h
+    | ok up =>
+      obtain ⟨u, pc⟩ := up
+      simp only [hu] at h
+      cases hs : sepCore conv cfg.w1 cfg.w2 cfg.lo cfg.po u pc (conv.csvOf pl.data) (conv.texOf tpl [pc]) w with
+      | error e => simp [hs] at h
+      | ok x =>
+        obtain ⟨w1, oc⟩ := x
+        simp only [hs] at h
+        obtain ⟨ov, hr, _, _⟩ := runPlot_eq_sepCore conv cfg ms tpl w pl u pc hu w1 oc hs
+        obtain ⟨vs, hrs⟩ := ih w1 w' h
+        exact ⟨ov.toList ++ vs, by unfold runPlots; rw [hr]; simp only; rw [hrs]⟩
+
+theorem specRun_refines (conv : Conv C) (w w' : World C) (r : RunSpec) (hl : r.layout = .separate)
+    (h : specRun conv w r = .ok w') : ∃ vs, runSpec conv w r = .ok (w', vs) := by
+  unfold specRun at h
+  unfold runSpec runSeparate
+  rw [hl] at h ⊢
+  cases hm : mfInit r.cfg.mf with
+  | error e => simp [hm] at h
+  | ok ms =>
+    cases hg : mfInit r.cfg.gmf with
+    | error e => simp [hm, hg] at h
+    | ok gms =>
+      simp only [hm, hg] at h ⊢
+      exact specSeparate_refines conv r.cfg ms r.tpl r.plots w w' h
 
 /-! ## the hypotheses are satisfiable: concrete non-trivial instances -/
 
